@@ -2636,6 +2636,10 @@ static iwrc _jbl_target_apply_patch(struct jbl_node *target, const struct jbl_pa
       }
     }
     if (parent->type == JBV_ARRAY) {
+      if (op == JBP_INCREMENT) { // Increments an existing element, like it does for an object member
+        struct jbl_node *child = _jbl_node_find(parent, path, lastidx, path->cnt);
+        return child ? _jbl_increment_node_data(child, value) : JBL_ERROR_PATCH_TARGET_INVALID;
+      }
       if ((path->n[lastidx][0] == '-') && (path->n[lastidx][1] == '\0')) {
         if (op == JBP_SWAP) {
           value = _jbl_node_detach(target, ex->from);
